@@ -348,6 +348,7 @@ _Dereification = Dict[
 
 def _dereify_agenda(g: Graph, model: Model) -> _Dereification:
     alns = alignments(g)
+    variables = g.variables()
     agenda: _Dereification = {}
     fixed: Set[Target] = set([g.top])
     inst: Dict[Variable, BasicTriple] = {}
@@ -380,6 +381,9 @@ def _dereify_agenda(g: Graph, model: Model) -> _Dereification:
             except ModelError:
                 pass
             else:
+                if dereified[0] not in variables:
+                    continue  # the source of a triple must be a node
+
                 # migrate epidata
                 epidata: List[Epidatum] = []
                 if instance in alns:
